@@ -23,7 +23,7 @@ ALT=
 if [ "$TIER" = thorough ] && command -v go1.26.8 >/dev/null 2>&1; then
   if (cd /repo/cmd/hranoprovod-cli && go1.26.8 build -tags verif -o $B/hr126 . ) > $B/build126.log 2>&1; then ALT=$B/hr126; fi
 fi
-mkdir -p $VERIF_ROOT/replay/$ID
+rm -rf $VERIF_ROOT/replay/$ID; mkdir -p $VERIF_ROOT/replay/$ID
 export VERIF_HR=$B/hr VERIF_HR_ALT=$ALT VERIF_WORK=$W VERIF_TIER=$TIER VERIF_SEED=${VERIF_SEED:-1}
 export GORACE="halt_on_error=0 exitcode=0 log_path=$W/race"
 cd /verif
